@@ -445,6 +445,8 @@ pub struct Sim {
     io_idx: u64,
     open_idx: u64,
     clock_idx: u64,
+    /// names removed so far (unlink / rename over an existing file)
+    unlinked: u64,
     /// how far the wall clock has been stepped back so far (fault wall_clock_step_back)
     wall_back_ns: u64,
     probe_idx: u64,
@@ -929,6 +931,7 @@ pub fn start(cfg: SimCfg, dec: Decider, fatal_fd: i32) {
         io_idx: 0,
         open_idx: 0,
         clock_idx: 0,
+        unlinked: 0,
         wall_back_ns: 0,
         probe_idx: 0,
         hard_faults: 0,
@@ -1895,6 +1898,37 @@ pub fn hook_stat_fd(fd: i32) -> Option<Result<(bool, u64), i32>> {
     Some(Ok((false, len)))
 }
 
+/// rename / unlink of simulated files by the code under test
+pub fn hook_rename(old: &[u8], new: &[u8]) -> Option<Result<(), i32>> {
+    if !is_sim_path(old) && !is_sim_path(new) {
+        return None;
+    }
+    let g = enter()?;
+    let s = sim();
+    if !is_sim_path(old) || !is_sim_path(new) {
+        return Some(Err(libc::EXDEV));
+    }
+    let (o, n) = (String::from_utf8_lossy(old).to_string(), String::from_utf8_lossy(new).to_string());
+    s.ev(g.tid, Pt::Open, u64::MAX - 1, 0);
+    if !s.quiet {
+        s.sched_point(g.tid, Pt::Open);
+    }
+    Some(if s.rename_file(&o, &n) { Ok(()) } else { Err(libc::ENOENT) })
+}
+pub fn hook_unlink(path: &[u8]) -> Option<Result<(), i32>> {
+    if !is_sim_path(path) {
+        return None;
+    }
+    let g = enter()?;
+    let s = sim();
+    let p = String::from_utf8_lossy(path).to_string();
+    s.ev(g.tid, Pt::Open, u64::MAX - 2, 0);
+    if !s.quiet {
+        s.sched_point(g.tid, Pt::Open);
+    }
+    Some(if s.unlink_file(&p).is_some() { Ok(()) } else { Err(libc::ENOENT) })
+}
+
 /// ftruncate on a simulated file
 pub fn hook_ftruncate(fd: i32, len: i64) -> Option<Result<(), i32>> {
     if !is_sim_fd(fd) {
@@ -1924,6 +1958,40 @@ impl Sim {
     }
     pub fn get_file(&self, path: &str) -> Option<&[u8]> {
         self.files.get(path).map(|f| f.data.as_slice())
+    }
+    /// remove a name. Descriptors that are open on the file keep it: the file lives on without a name (under a
+    /// key no generated path uses) until the run ends. Returns that key.
+    pub fn unlink_file(&mut self, path: &str) -> Option<String> {
+        let f = self.files.remove(path)?;
+        self.unlinked += 1;
+        let key = format!("/sim/.unlinked/{}", self.unlinked);
+        for fd in self.fds.values_mut() {
+            if fd.path == path {
+                fd.path = key.clone();
+            }
+        }
+        self.files.insert(key.clone(), f);
+        Some(key)
+    }
+    /// give a file another name (an existing file of that name loses it). Open descriptors follow the file.
+    pub fn rename_file(&mut self, old: &str, new: &str) -> bool {
+        if !self.files.contains_key(old) {
+            return false;
+        }
+        if old == new {
+            return true;
+        }
+        if self.files.contains_key(new) {
+            self.unlink_file(new);
+        }
+        let f = self.files.remove(old).unwrap();
+        for fd in self.fds.values_mut() {
+            if fd.path == old {
+                fd.path = new.to_string();
+            }
+        }
+        self.files.insert(new.to_string(), f);
+        true
     }
     pub fn now_ns(&self) -> u64 {
         self.clock_ns
